@@ -20,7 +20,7 @@ def run(rep, tier):
         "the give form is not transcribed: it is bound to the take-form table by probing",
     ]
     tabs = sc.tables(rep, tier, "c03", "ac")
-    sc.conformance(rep, tier, tabs, "residual", 160, "residual", threads=(1, 3) if tier == "thorough" else (1,), scales=(1.0, 1e-9, 1e7))
+    sc.conformance(rep, tier, tabs, "residual", 160, "residual", threads=(1, 3, 16) if tier == "thorough" else (1, 3), scales=(1.0, 1e-9, 1e7))
     cache_derivation(rep, tier)
     try:
         import realgeom
